@@ -589,21 +589,15 @@ Definition rule_ok (S : tsdoc) (D : opdoc) (r : rule) : bool :=
 Definition spec_valid (S : tsdoc) (D : opdoc) : bool := forallb (rule_ok S D) all_rules.
 
 
-(** * The positions a spread-following validator looks at, minus the two known blind spots
+(** * The positions a spread-following validator looks at
 
     The implementation validates a fragment definition's selection set where the fragment is spread
-    (in the scope of the spreading operation's variables), not once per definition, and it does not look
-    below a fragment (inline or named) whose type condition is the very interface type it is spread in.
-    [vis_op_sites] enumerates, per operation, the sites reached by following spreads from the operation,
-    without the sites below such a same-interface fragment. Everything the property theorems of C03
-    claim is claimed for these sites; the sites outside (never-spread fragment definitions, contents of
-    same-interface fragments) are the subject of the [_refuted] lemmas and known findings. *)
-
-Definition same_iface (p : option typedef) (c : option typedef) : bool :=
-  match p, c with
-  | Some (TDInterface _ _ n1 _ _ _ _), Some (TDInterface _ _ n2 _ _ _ _) => str_eqb (iname n1) (iname n2)
-  | _, _ => false
-  end.
+    (in the scope of the spreading operation's variables), not once per definition.
+    [vis_op_sites] enumerates, per operation, the sites reached by following spreads from the operation.
+    Everything the property theorems of C03 claim is claimed for these sites; the sites outside
+    (never-spread fragment definitions) are the subject of a [_refuted] lemma and known finding.
+    (Until /repo commit 762f951 the contents of a fragment whose type condition is the enclosing interface
+    were a second blind spot; the enumeration used to leave them out.) *)
 
 Section VisSel.
   Variable S : tsdoc.
@@ -623,9 +617,7 @@ Section VisSel.
         match cond with
         | None => StDirs (s "INLINE_FRAGMENT") dirs :: flat_map (vsites_sel parent) l
         | Some c =>
-            StInline parent c :: StDirs (s "INLINE_FRAGMENT") dirs ::
-            (if same_iface parent (sp_type S (iname c)) then []
-             else flat_map (vsites_sel (sp_type S (iname c))) l)
+            StInline parent c :: StDirs (s "INLINE_FRAGMENT") dirs :: flat_map (vsites_sel (sp_type S (iname c))) l
         end
     end.
 End VisSel.
@@ -641,9 +633,8 @@ Fixpoint vis_enter (fuel : nat) (S : tsdoc) (D : opdoc) (path : list str) (paren
         | None => []
         | Some f =>
             StDirs (s "FRAGMENT_DEFINITION") (fr_dirs f) ::
-            (let cond := sp_type S (iname (fr_cond f)) in
-             if same_iface parent cond then []
-             else flat_map (vsites_sel S (vis_enter k S D (path ++ [iname name])) cond) (selset_sels (fr_sel f)))
+            flat_map (vsites_sel S (vis_enter k S D (path ++ [iname name])) (sp_type S (iname (fr_cond f))))
+                     (selset_sels (fr_sel f))
         end
   end.
 
@@ -696,3 +687,54 @@ Definition input_types_closed (S : tsdoc) : bool :=
                     | TSType (TDInput _ _ _ _ fields _) => forallb (fun f => resolves S (iv_type f)) fields
                     | _ => true
                     end) S.
+
+(** * Further parts of schema validity, used by the completeness direction (C04_complete_vis) *)
+
+Definition schema_type_names (S : tsdoc) : list str :=
+  flat_map (fun d => match d with TSType t => [iname (typedef_name t)] | _ => [] end) S.
+
+Definition field_list_closed (S : tsdoc) (fs : list fielddef) : bool :=
+  forallb (fun f => match sp_type S (iname (ty_unwrapped (fd_type f))) with Some _ => true | None => false end
+                    && forallb (fun a => resolves S (iv_type a)) (field_argdefs f)) fs.
+
+Definition is_object (t : typedef) : bool := match t with TDObject _ _ _ _ _ _ _ => true | _ => false end.
+
+(** type names are unique (3.3); field types exist and argument types are existing input types (3.6, 3.13);
+    unions have at least one member and the members are object types (3.8); root operation types are object types (3.3.1) *)
+Definition schema_closed (S : tsdoc) : bool :=
+  nodup_str (schema_type_names S)
+  && input_types_closed S
+  && forallb (fun d =>
+       match d with
+       | TSType (TDObject _ _ _ _ _ fs _) | TSType (TDInterface _ _ _ _ _ fs _) => field_list_closed S fs
+       | TSType (TDUnion _ _ _ _ members _) =>
+           match members with [] => false | _ => true end
+           && forallb (fun m => match sp_type S (iname m) with Some t => is_object t | None => false end) members
+       | TSDirective dd => forallb (fun a => resolves S (iv_type a)) (dir_argdefs dd)
+       | _ => true
+       end) S
+  && resolves S (TNamed (mkId (s "String") pos0)).
+
+(** what the grammar guarantees: an argument list that is written is not empty *)
+Definition args_written_ok (a : option arguments) : bool :=
+  match a with Some x => match args_list x with [] => false | _ => true end | None => true end.
+Definition site_syntax_ok (x : site) : bool :=
+  match x with
+  | StField _ _ args _ => args_written_ok args
+  | StDirs _ ds => forallb (fun d => args_written_ok (dir_args d)) ds
+  | _ => true
+  end.
+
+(** IsVariableUsageAllowed without the hasLocationDefaultValue clause (which the implementation lacks) *)
+Definition var_usage_strict_on (S : tsdoc) (o : opdef) (sites : list site) : bool :=
+  forallb (fun x => forallb (fun u => match find_var o (u_name u), u_type u with
+                                      | Some vd, Some t => variable_usage_allowed vd t false
+                                      | _, _ => true
+                                      end) (site_var_uses false S x)) sites.
+
+(** everything the completeness theorem asks of a document, read on the visible sites *)
+Definition doc_fine_vis (S : tsdoc) (D : opdoc) : bool :=
+  forallb (fun r => rule_ok_vis S D r) all_rules
+  && forallb (fun o => var_usage_strict_on S o (vis_op_sites S D o)
+                       && forallb site_syntax_ok (vis_op_sites S D o ++ op_const_sites o)
+                       && match sp_root S (op_type o) with Some t => is_object t | None => false end) (doc_ops D).
